@@ -42,6 +42,7 @@ func vLoadReplay() {
 	vFailures = nil
 	vRegionsHit = map[string]bool{}
 	vObserved = map[string]string{}
+	vNowOverride = nil
 	p := os.Getenv("VERIF_REPLAY")
 	if p == "" {
 		panic("VERIF_REPLAY not set")
@@ -174,7 +175,20 @@ func vSetEnv(f func(string) bool) {}
 func vRunPending() int            { return 0 }
 func vPendingCount() int          { return 0 }
 func vDropPending()               {}
-func vSetNow(sec, nsec int64)     {}
+
+// vSetNow fixes the clock seen by the package under test (natively through
+// vTimeNow, which the replay overlay substitutes for time.Now()).
+func vSetNow(sec, nsec int64) {
+	t := time.Unix(sec, nsec)
+	vNowOverride = &t
+}
+
+func vTimeNow() time.Time {
+	if vNowOverride != nil {
+		return *vNowOverride
+	}
+	return time.Now()
+}
 
 func vBytesEq(a, b []byte) bool { return string(a) == string(b) }
 func vStrEq(a, b string) bool   { return a == b }
